@@ -44,10 +44,19 @@ theorem asciiMembers_ok (fmt : Int → Str) (p : Str) (ms : List Base) (h : ∀ 
     (fun m hm => asciiBase_ok fmt _ m (h m hm))
   exact ⟨ys.flatMap (· ++ ['\n']), by rw [hys]; rfl⟩
 
+theorem asciiMember_ok (fmt : Int → Str) (p : Str) (m : Member) (h : m.WF) :
+    ∃ t, asciiMember fmt p m = .ok t := by
+  cases m with
+  | base b => exact asciiBase_ok fmt _ b h
+  | struct n bs => exact asciiMembers_ok fmt _ bs h
+
 theorem asciiVar_ok (fmt : Int → Str) (v : Var) (h : v.WF) : ∃ t, asciiVar fmt v = .ok t := by
   cases v with
   | base b => exact asciiBase_ok fmt _ b h
-  | struct n ms => exact asciiMembers_ok fmt n ms h
+  | struct n ms =>
+    obtain ⟨ys, hys⟩ := mapM_ok_of_forall (asciiMember fmt n) ms
+      (fun m hm => asciiMember_ok fmt n m (h m hm))
+    exact ⟨ys.flatMap (· ++ ['\n']), by simp [asciiVar, hys, bind, Except.bind, pure, Except.pure]⟩
   | grid n a ms =>
     exact asciiMembers_ok fmt n (a :: ms) (by
       intro m hm; simp at hm; rcases hm with rfl | hm
@@ -122,40 +131,52 @@ open Pydap
 
 /-! ### hyperslabs keep arrays well formed -/
 
-theorem validSl_spec {N : Nat} {s : PSlice} (h : validSl N s = true) :
-    ∃ a b k, s = ⟨some a, some b, some k⟩ ∧ 0 ≤ a ∧ a < b ∧ b ≤ N ∧ 1 ≤ k := by
-  obtain ⟨st, sp, se⟩ := s
-  cases st <;> cases sp <;> cases se <;> simp [validSl] at h
-  exact ⟨_, _, _, rfl, h⟩
-
 theorem validSl_nonneg {N : Nat} {s : PSlice} (h : validSl N s = true) : NonNegSl s := by
-  obtain ⟨a, b, k, rfl, h0, h1, h2, h3⟩ := validSl_spec h
+  obtain ⟨st, sp, se⟩ := s
+  simp only [validSl, decide_eq_true_eq] at h
   constructor
-  · intro x hx; simp at hx; omega
-  · intro x hx; simp at hx; omega
-  · intro x hx; simp at hx; omega
+  · intro x hx; simp only at hx; subst hx; simpa using h.1
+  · intro x hx; simp only at hx; subst hx
+    have h1 := h.1; have h3 := h.2.2.1; simp only [Option.getD_some] at h3; omega
+  · intro x hx; simp only at hx; subst hx; simpa using h.2.2.2
 
-theorem mem_sel_lt (N : Nat) (s : PSlice) (h : validSl N s = true) : ∀ j ∈ sel N s, j < N := by
+theorem nonNeg_all : NonNegSl PSlice.all := by
+  constructor <;> intro x hx <;> simp [PSlice.all] at hx
+
+theorem mem_sel_lt (N : Nat) (s : PSlice) (hnn : NonNegSl s) : ∀ j ∈ sel N s, j < N := by
   intro j hj
-  have hnn := validSl_nonneg h
   rw [sel_eq_natSel N s hnn] at hj
   have := mem_natSel_lt N _ _ _ j (stepN_pos hnn) hj
   omega
 
-theorem zip_sel_bound : ∀ (sh : List Nat) (sl : List PSlice),
-    (List.zipWith validSl sh sl).all id = true →
+theorem zip_sel_nonneg : ∀ (sh : List Nat) (sl : List PSlice), (∀ s ∈ sl, NonNegSl s) →
     ∀ p ∈ List.zip sh (List.zipWith sel sh sl), ∀ i ∈ p.2, i < p.1
   | [], _, _ => by simp
   | _ :: _, [], _ => by simp
   | n :: sh, s :: sl, h => by
-    simp only [List.zipWith_cons_cons, List.all_cons, Bool.and_eq_true, id] at h
     intro p hp
     simp only [List.zipWith_cons_cons, List.zip_cons_cons, List.mem_cons] at hp
     rcases hp with rfl | hp
-    · exact mem_sel_lt n s h.1
-    · exact zip_sel_bound sh sl h.2 p hp
+    · exact mem_sel_lt n s (h s (by simp))
+    · exact zip_sel_nonneg sh sl (fun x hx => h x (by simp [hx])) p hp
 
-theorem selND_length : ∀ (sh : List Nat) (idx : List (List Nat)) (d : List Int),
+/-- the slices accepted by `check_hyperslab`, completed with `slice(None)`, select positions inside the axes -/
+theorem zip_sel_bound : ∀ (sh : List Nat) (sl : List PSlice) (k : Nat),
+    (List.zipWith validSl sh sl).all id = true →
+    ∀ p ∈ List.zip sh (List.zipWith sel sh (sl ++ List.replicate k PSlice.all)), ∀ i ∈ p.2, i < p.1
+  | [], _, _, _ => by simp
+  | n :: sh, [], k, _ => by
+    simp only [List.nil_append]
+    exact zip_sel_nonneg (n :: sh) _ (fun s hs => by rw [List.eq_of_mem_replicate hs]; exact nonNeg_all)
+  | n :: sh, s :: sl, k, h => by
+    simp only [List.zipWith_cons_cons, List.all_cons, Bool.and_eq_true, id] at h
+    intro p hp
+    simp only [List.cons_append, List.zipWith_cons_cons, List.zip_cons_cons, List.mem_cons] at hp
+    rcases hp with rfl | hp
+    · exact mem_sel_lt n s (validSl_nonneg h.1)
+    · exact zip_sel_bound sh sl k h.2 p hp
+
+theorem selND_length : ∀ (sh : List Nat) (idx : List (List Nat)) (d : List Val),
     idx.length = sh.length → (∀ p ∈ List.zip sh idx, ∀ i ∈ p.2, i < p.1) → d.length = prod sh →
     (selND sh idx d).length = prod (idx.map List.length)
   | [], [], d, _, _, hd => by simpa [selND, prod] using hd
@@ -175,7 +196,7 @@ theorem selND_length : ∀ (sh : List Nat) (idx : List (List Nat)) (d : List Int
 
 theorem sliceBase_wf (b b' : Base) (sl : List PSlice) (h : b.WF) (hs : sliceBase b sl = .ok b') :
     b'.WF ∧ b'.name = b.name ∧ b'.ty = b.ty ∧
-    b'.shape = (List.zipWith sel b.shape sl).map List.length := by
+    b'.shape = (List.zipWith sel b.shape (padSl b.shape.length sl)).map List.length := by
   unfold sliceBase at hs
   split at hs
   · rename_i hc
@@ -184,8 +205,8 @@ theorem sliceBase_wf (b b' : Base) (sl : List PSlice) (h : b.WF) (hs : sliceBase
     refine ⟨⟨?_, rfl⟩, rfl, rfl, rfl⟩
     simp only
     apply selND_length
-    · simp [List.length_zipWith, hc.1]
-    · exact zip_sel_bound _ _ hc.2
+    · simp only [padSl, List.length_zipWith, List.length_append, List.length_replicate]; omega
+    · exact zip_sel_bound _ _ _ hc.2
     · exact h.1
   · simp at hs
 
